@@ -37,6 +37,13 @@ theorem replace01_eq_unesc (t : Str) (h : EscWF t) : replace01 t = unesc t := by
   | e1 r hr ih =>
     rw [replace2_hit, replace2_head_ne _ _ _ '/' _ (by decide), ih, unesc_e1]
 
+theorem escWF_append (a b : Str) (ha : EscWF a) (hb : EscWF b) : EscWF (a ++ b) := by
+  induction ha with
+  | nil => exact hb
+  | plain c r hc _ ih => exact .plain c _ hc ih
+  | e0 r _ ih => exact .e0 _ ih
+  | e1 r _ ih => exact .e1 _ ih
+
 theorem escWF_iff (s : Str) : escWF s = true ↔ EscWF s := by
   constructor
   · intro h
@@ -639,6 +646,16 @@ theorem resolve_path (segs : List Str) : ∀ (fs : Spec) (pre : List Str) (b : B
         split at h
         · cases h
         · cases h; simp [Access.path]
+    · split at h
+      · rename_i ht
+        have : tail = [] := by simpa using ht
+        subst this
+        split at h
+        · cases h; simp [Access.path]
+        · split at h
+          · cases h
+          · cases h; simp [Access.path]
+      · cases h; simp [Access.path]
 
 /-- A path that resolves to a leaf write resolves, without a body, to the read of the same leaf. -/
 theorem resolve_write_read (segs : List Str) : ∀ (fs : Spec) (pre : List Str) (p : List Str),
@@ -673,6 +690,32 @@ theorem resolve_write_read (segs : List Str) : ∀ (fs : Spec) (pre : List Str) 
         · simp only [ht, Bool.not_true, Bool.false_eq_true, if_false] at h
           split at h <;> cases h
         · simp [ht] at h
+      | foreign ro =>
+        simp only [hl] at h
+        by_cases ht : tail.isEmpty = true
+        · simp only [ht, if_true, Bool.not_true, Bool.false_eq_true, if_false] at h
+          cases ro <;> simp at h
+        · simp [ht] at h
+
+/-- Through any chain of `#[repe(nested)]` fields down to a hand-written struct: the struct is handed
+exactly the tokens that follow its name – all of them, empty ones included. -/
+theorem resolve_chain (names : List Str) (hne : names ≠ []) (pre rest : List Str) (hr : rest ≠ []) (b : Bool) :
+    resolve (chainSpec names) pre (names ++ rest) b = .ok (.foreign (pre ++ names) rest) := by
+  induction names generalizing pre with
+  | nil => exact absurd rfl hne
+  | cons n ns ih =>
+    cases ns with
+    | nil =>
+      have : rest.isEmpty = false := by cases rest <;> simp_all
+      simp [chainSpec, resolve, Spec.lookup, this]
+    | cons m ms =>
+      have hne' : ((m :: ms) ++ rest).isEmpty = false := by simp
+      rw [show (n :: m :: ms) ++ rest = n :: ((m :: ms) ++ rest) from rfl]
+      simp only [chainSpec, resolve, Spec.lookup, if_true, hne', Bool.false_eq_true, if_false]
+      have := ih (by simp) (pre ++ [n])
+      simp only [chainSpec] at this
+      rw [this]
+      simp
 
 theorem store_get_set (st : Store) (d : Bytes) (p : List Str) (v : Bytes) : (st.set p v).get d p = v := by
   simp [Store.set, Store.get]
